@@ -18,6 +18,7 @@ echo "|------|----------|------|--------------|" >> $out
 for d in seeded/$glob; do
   name=$(basename $d)
   pid=$(/venv/bin/python -c "import json;print(json.load(open('seeded/$name/meta.json'))['property'])")
+  pid="${SEED_PROP:-$pid}"
   ( cd $iso/repo && git checkout -q -- . && git apply $iso/verif/seeded/$name/patch.diff ) || { echo "| $name | $pid | - | PATCH DOES NOT APPLY |" >> $out; continue; }
   VERIF_REPO=$iso/repo ./check $pid $tier > $iso/seedrun_$name.log 2>&1; rc=$?
   ( cd $iso/repo && git checkout -q -- . )
